@@ -26,11 +26,16 @@ class PathResult:
         self.kind, self.detail = kind, detail
 
 
-def explore(task, max_paths=MAX_PATHS):
-    """run `task(st)` once per decision prefix until no unexplored alternative is left"""
-    work = [[]]
+def explore(task, max_paths=MAX_PATHS, start=None, split_at=None):
+    """run `task(st)` once per decision prefix until no unexplored alternative is left.
+    start: list of decision prefixes to explore (default: the empty prefix);
+    split_at: once that many prefixes are pending (and a few paths are done) stop and hand the
+    pending prefixes back, so that the caller can spread them over worker processes"""
+    work = [list(p) for p in (start if start is not None else [[]])]
     done = []
     while work:
+        if split_at is not None and len(work) >= split_at and len(done) >= 4:
+            return done, work
         prefix = work.pop()
         FRESH.reset()
         st = State([list(x) for x in prefix])
@@ -39,10 +44,10 @@ def explore(task, max_paths=MAX_PATHS):
         done.append((st, res))
         if len(done) > max_paths:
             raise Unsupported('more than %d paths' % max_paths)
-    return done
+    return done, []
 
 
-def verify_function(c, variant=None, vname=''):
+def verify_function(c, variant=None, vname='', start=None, split_at=None):
     """verify the real body of c.qual against contract c; returns (obligations, info)"""
     func = source.unwrap(source.resolve(c.qual))
     node, ms = source.node_of(func)
@@ -102,7 +107,8 @@ def verify_function(c, variant=None, vname=''):
         except (_Break, _Continue):
             return PathResult('unsupported', 'break/continue outside loop')
 
-    done = explore(task)
+    done, pending = explore(task, start=start, split_at=split_at)
+    info['pending'] = pending
     obls = {}
     for st, res in done:
         info['paths'] += 1
@@ -396,7 +402,7 @@ def run_z3_old(smt2, timeout_ms):
     return _run_solver(['/usr/bin/z3', '-T:%d' % max(1, timeout_ms // 1000)], smt2, timeout_ms)
 
 
-def verify_and_discharge(qual, variant_index=None, timeout_ms=QUICK_TIMEOUT_MS, second_opinion=False):
+def verify_and_discharge(qual, variant_index=None, timeout_ms=QUICK_TIMEOUT_MS, second_opinion=False, start=None, split_at=None):
     """worker entry point: returns plain data (no z3 objects)"""
     c = REG.contracts[qual]
     t0 = time.time()
@@ -408,7 +414,8 @@ def verify_and_discharge(qual, variant_index=None, timeout_ms=QUICK_TIMEOUT_MS, 
             if variant_index is not None and vi != variant_index:
                 continue
             vname = '' if v is None else (v if isinstance(v, str) else str(v))
-            obls, info = verify_function(c, v, vname)
+            obls, info = verify_function(c, v, vname, start=start, split_at=split_at)
+            out.setdefault('pending', []).extend((vi, p) for p in info.pop('pending'))
             info['assumed'] = sorted(info['assumed'])
             info['callees'] = sorted(info['callees'])
             out['infos'].append(info)
